@@ -37,6 +37,17 @@ Theorem C13_convert_pointwise :
 Proof. exact convert_pointwise_chunks. Qed.
 Print Assumptions C13_convert_pointwise.
 
+(* a chunk of the destination grid whose source cannot be read (missing,
+   truncated, undecodable, a remote failure) makes the command FAIL: it never
+   ends normally with something else in that place *)
+Theorem C13_convert_fails_on_unreadable_source :
+  forall V f sbytes dbytes sdecode dencode sscales dscales src s cs c,
+  In s dscales -> In cs (sc_chunk_sizes s) -> In c (cgrid (sc_size s) cs) ->
+  ~ is_ok (read_chunk (cchunk V) sbytes sdecode sscales src (sc_key s) c) ->
+  ~ is_ok (convert_chunks V f sbytes dbytes sdecode dencode sscales dscales src []).
+Proof. exact convert_fails_on_unreadable_source. Qed.
+Print Assumptions C13_convert_fails_on_unreadable_source.
+
 (* the destination grid walked by the command is the same set of chunks as
    the grid of the volume writer (another loop order) *)
 Theorem C13_grid_same_chunks : forall size cs c,
